@@ -24,9 +24,9 @@ impl<T> VxIo<T> for Result<T, std::io::Error> {
 #[verifier::external_body] fn vx_in_4_21(x: u8) -> (r: bool) ensures r == (4 <= x <= 21) { (4..=21).contains(&x) }
 
 #[verifier::external_body]
-struct SketchSlice<'a> {
-    slice: Cursor<&'a [u8]>,
-}
+struct SketchSlice < 'a > {
+slice : Cursor < & 'a [ u8 ] > , }
+
 
 impl SketchSlice<'_> {
     uninterp spec fn rem(&self) -> Seq<u8>;
@@ -50,70 +50,72 @@ impl SketchSlice<'_> {
 // =====================================================================================================================
 // constants, header helpers (taken from /repo every run)
 // =====================================================================================================================
-const SERIAL_VERSION: u8 = 1;
-const EMPTY_FLAG_MASK: u8 = 4;
-const COMPACT_FLAG_MASK: u8 = 8;
-const OUT_OF_ORDER_FLAG_MASK: u8 = 16;
-const LIST_PREINTS: u8 = 2;
-const HASH_SET_PREINTS: u8 = 3;
-const HLL_PREINTS: u8 = 10;
-const CUR_MODE_LIST: u8 = 0;
-const CUR_MODE_SET: u8 = 1;
-const CUR_MODE_HLL: u8 = 2;
-const TGT_HLL4: u8 = 0;
-const TGT_HLL6: u8 = 1;
-const TGT_HLL8: u8 = 2;
+const SERIAL_VERSION : u8 = 1 ;
+
+const EMPTY_FLAG_MASK : u8 = 4 ;
+
+const COMPACT_FLAG_MASK : u8 = 8 ;
+
+const OUT_OF_ORDER_FLAG_MASK : u8 = 16 ;
+
+const LIST_PREINTS : u8 = 2 ;
+
+const HASH_SET_PREINTS : u8 = 3 ;
+
+const HLL_PREINTS : u8 = 10 ;
+
+const CUR_MODE_LIST : u8 = 0 ;
+
+const CUR_MODE_SET : u8 = 1 ;
+
+const CUR_MODE_HLL : u8 = 2 ;
+
+const TGT_HLL4 : u8 = 0 ;
+
+const TGT_HLL6 : u8 = 1 ;
+
+const TGT_HLL8 : u8 = 2 ;
+
 
 struct Family {
-    id: u8,
-    name: &'static str,
-    min_pre_longs: u8,
-    max_pre_longs: u8,
-}
+id : u8 , name : & 'static str , min_pre_longs : u8 , max_pre_longs : u8 , }
+
 
 impl Family {
-    const HLL: Family = Family {
-        id: 7,
-        name: "HLL",
-        min_pre_longs: 1,
-        max_pre_longs: 1,
-    };
+    const HLL : Family = Family {
+id : 7 , name : "HLL" , min_pre_longs : 1 , max_pre_longs : 1 , }
+;
 
-    fn validate_id(&self, family_id: u8) -> (r: Result<(), Error>)
-      ensures r is Ok <==> family_id == self.id
-    {
-        if family_id != self.id {
-            Err(vx_err_invalid_family())
-        } else {
-            Ok(())
-        }
-    }
+
+    fn validate_id ( & self , family_id : u8 ) -> ( r : Result < ( ) , Error > ) ensures r is Ok <==> family_id == self . id {
+if family_id != self . id {
+Err ( vx_err_invalid_family ( ) ) }
+else {
+Ok ( ( ) ) }
+}
+
 }
 #[verifier::external_body] fn vx_err_invalid_family() -> Error { unimplemented!() }
 
-fn ensure_serial_version_is(expected: u8, actual: u8) -> (r: Result<(), Error>)
-  ensures r is Ok <==> expected == actual
-{
-    if expected == actual {
-        Ok(())
-    } else {
-        Err(vx_err_deserial())
-    }
+fn ensure_serial_version_is ( expected : u8 , actual : u8 ) -> ( r : Result < ( ) , Error > ) ensures r is Ok <==> expected == actual {
+if expected == actual {
+Ok ( ( ) ) }
+else {
+Err ( vx_err_deserial ( ) ) }
 }
 
-fn extract_cur_mode(mode_byte: u8) -> (r: u8) ensures r == mode_byte & 0x3 {
-    mode_byte & 0x3
-}
 
-fn extract_tgt_hll_type(mode_byte: u8) -> (r: u8) ensures r == (mode_byte >> 2) & 0x3 {
-    (mode_byte >> 2) & 0x3
-}
+fn extract_cur_mode ( mode_byte : u8 ) -> ( r : u8 ) ensures r == mode_byte & 0x3 {
+mode_byte & 0x3 }
+
+
+fn extract_tgt_hll_type ( mode_byte : u8 ) -> ( r : u8 ) ensures r == ( mode_byte >> 2 ) & 0x3 {
+( mode_byte >> 2 ) & 0x3 }
+
 
 enum HllType {
-    Hll4,
-    Hll6,
-    Hll8,
-}
+Hll4 , Hll6 , Hll8 , }
+
 
 // =====================================================================================================================
 // the per-mode parsers, by contract: each is a (deterministic) function of the payload after the 8 header bytes and of the header fields
@@ -131,35 +133,35 @@ uninterp spec fn list_parse(p: Seq<u8>, lg_arr: usize, count: usize, empty: bool
 uninterp spec fn set_parse(p: Seq<u8>, lg_arr: usize, compact: bool) -> Option<HashSet>;
 impl Array4 {
     #[verifier::external_body]
-    fn deserialize(mut cursor: SketchSlice, cur_min: u8, lg_config_k: u8, compact: bool, ooo: bool) -> (r: Result<Self, Error>)
+    fn deserialize(mut cursor: SketchSlice, cur_min: u8, lg_config_k: u8, _compact: bool, ooo: bool,) -> (r: Result<Self, Error>)
       requires 4 <= lg_config_k <= 21
-      ensures r.ok() == array4_parse(cursor.rem(), cur_min, lg_config_k, compact, ooo)
+      ensures r.ok() == array4_parse(cursor.rem(), cur_min, lg_config_k, _compact, ooo)
     { unimplemented!() }
 }
 impl Array6 {
     #[verifier::external_body]
-    fn deserialize(mut cursor: SketchSlice, lg_config_k: u8, _compact: bool, ooo: bool) -> (r: Result<Self, Error>)
+    fn deserialize(mut cursor: SketchSlice, lg_config_k: u8, _compact: bool, ooo: bool,) -> (r: Result<Self, Error>)
       requires 4 <= lg_config_k <= 21
       ensures r.ok() == array6_parse(cursor.rem(), lg_config_k, _compact, ooo)
     { unimplemented!() }
 }
 impl Array8 {
     #[verifier::external_body]
-    fn deserialize(mut cursor: SketchSlice, lg_config_k: u8, _compact: bool, ooo: bool) -> (r: Result<Self, Error>)
+    fn deserialize(mut cursor: SketchSlice, lg_config_k: u8, _compact: bool, ooo: bool,) -> (r: Result<Self, Error>)
       requires 4 <= lg_config_k <= 21
       ensures r.ok() == array8_parse(cursor.rem(), lg_config_k, _compact, ooo)
     { unimplemented!() }
 }
 impl List {
     #[verifier::external_body]
-    fn deserialize(mut cursor: SketchSlice, lg_arr: usize, coupon_count: usize, empty: bool, compact: bool) -> (r: Result<Self, Error>)
+    fn deserialize(mut cursor: SketchSlice, lg_arr: usize, coupon_count: usize, empty: bool, compact: bool,) -> (r: Result<Self, Error>)
       requires lg_arr <= 255, coupon_count <= 255
       ensures r.ok() == list_parse(cursor.rem(), lg_arr, coupon_count, empty, compact)
     { unimplemented!() }
 }
 impl HashSet {
     #[verifier::external_body]
-    fn deserialize(mut cursor: SketchSlice, lg_arr: usize, compact: bool) -> (r: Result<Self, Error>)
+    fn deserialize(mut cursor: SketchSlice, lg_arr: usize, compact: bool,) -> (r: Result<Self, Error>)
       requires lg_arr <= 255
       ensures r.ok() == set_parse(cursor.rem(), lg_arr, compact)
     { unimplemented!() }
@@ -170,17 +172,16 @@ impl HashSet {
 #[verifier::external_body] fn vx_map_array8(r: Result<Array8, Error>) -> (m: Result<Mode, Error>) ensures r matches Ok(a) ==> m == Ok::<Mode, Error>(Mode::Array8(a)), r is Err ==> m is Err { r.map(Mode::Array8) }
 
 enum Mode {
-    List { list: List, hll_type: HllType },
-    Set { set: HashSet, hll_type: HllType },
-    Array4(Array4),
-    Array6(Array6),
-    Array8(Array8),
-}
+List {
+list : List , hll_type : HllType }
+, Set {
+set : HashSet , hll_type : HllType }
+, Array4 ( Array4 ) , Array6 ( Array6 ) , Array8 ( Array8 ) , }
+
 
 struct HllSketch {
-    lg_config_k: u8,
-    mode: Mode,
-}
+lg_config_k : u8 , mode : Mode , }
+
 
 // =====================================================================================================================
 // FORMAT SPEC (DESIGN.md Appendix A, "HLL"): the 8-byte preamble and what it selects
@@ -206,108 +207,79 @@ spec fn dispatch(b: Seq<u8>) -> Option<Mode> {
 }
 
 impl HllSketch {
-    fn deserialize(bytes: &[u8]) -> (r: Result<HllSketch, Error>)
-      ensures
-        /*@C14.hll.hdr.rejects_short*/ bytes@.len() < 8 ==> r is Err,
-        /*@C14.hll.hdr.validates*/ r is Ok ==> hdr_ok(bytes@),
-        /*@C13.hll.hdr.accepts*/ hdr_ok(bytes@) && dispatch(bytes@) is Some ==> r is Ok,
-        /*@C13.hll.hdr.lg_k*/ r matches Ok(s) ==> s.lg_config_k == bytes@[3],
-        /*@C13.hll.hdr.dispatch*/ r matches Ok(s) ==> Some(s.mode) == dispatch(bytes@),
-    {
-        let mut cursor = SketchSlice::new(bytes);
-        let ghost b = bytes@;
+    fn deserialize ( bytes : & [ u8 ] ) -> ( r : Result < HllSketch , Error > ) ensures
+/*@C14.hll.hdr.rejects_short*/ bytes @ . len ( ) < 8 ==> r is Err ,
+/*@C14.hll.hdr.validates*/ r is Ok ==> hdr_ok ( bytes @ ) ,
+/*@C13.hll.hdr.accepts*/ hdr_ok ( bytes @ ) && dispatch ( bytes @ ) is Some ==> r is Ok ,
+/*@C13.hll.hdr.lg_k*/ r matches Ok ( s ) ==> s . lg_config_k == bytes @ [ 3 ] ,
+/*@C13.hll.hdr.dispatch*/ r matches Ok ( s ) ==> Some ( s . mode ) == dispatch ( bytes @ ) , {
+let mut cursor = SketchSlice :: new ( bytes ) ;
+let ghost b = bytes @ ;
+let preamble_ints = cursor . read_u8 ( ) . vx_io ( "preamble_ints" ) ? ;
+let serial_version = cursor . read_u8 ( ) . vx_io ( "serial_version" ) ? ;
+let family_id = cursor . read_u8 ( ) . vx_io ( "family_id" ) ? ;
+let lg_config_k = cursor . read_u8 ( ) . vx_io ( "lg_config_k" ) ? ;
+let lg_arr = cursor . read_u8 ( ) . vx_io ( "lg_arr" ) ? ;
+let flags = cursor . read_u8 ( ) . vx_io ( "flags" ) ? ;
+let state = cursor . read_u8 ( ) . vx_io ( "state" ) ? ;
+let mode_byte = cursor . read_u8 ( ) . vx_io ( "mode" ) ? ;
+proof {
+assert ( b . skip ( 1 ) . skip ( 1 ) . skip ( 1 ) . skip ( 1 ) . skip ( 1 ) . skip ( 1 ) . skip ( 1 ) . skip ( 1 ) =~= b . skip ( 8 ) ) ;
+assert ( b . skip ( 1 ) [ 0 ] == b [ 1 ] && b . skip ( 1 ) . skip ( 1 ) [ 0 ] == b [ 2 ] && b . skip ( 1 ) . skip ( 1 ) . skip ( 1 ) [ 0 ] == b [ 3 ] ) ;
+assert ( b . skip ( 1 ) . skip ( 1 ) . skip ( 1 ) . skip ( 1 ) [ 0 ] == b [ 4 ] && b . skip ( 1 ) . skip ( 1 ) . skip ( 1 ) . skip ( 1 ) . skip ( 1 ) [ 0 ] == b [ 5 ] ) ;
+assert ( b . skip ( 1 ) . skip ( 1 ) . skip ( 1 ) . skip ( 1 ) . skip ( 1 ) . skip ( 1 ) [ 0 ] == b [ 6 ] && b . skip ( 1 ) . skip ( 1 ) . skip ( 1 ) . skip ( 1 ) . skip ( 1 ) . skip ( 1 ) . skip ( 1 ) [ 0 ] == b [ 7 ] ) ;
+assert ( ( mode_byte >> 2 ) & 3 <= 3 && mode_byte & 3 <= 3 ) by ( bit_vector ) ;
+}
+Family :: HLL . validate_id ( family_id ) ? ;
+ensure_serial_version_is ( SERIAL_VERSION , serial_version ) ? ;
+if ! vx_in_4_21 ( lg_config_k ) {
+return Err ( vx_err_deserial ( ) ) ;
+}
+let hll_type = match extract_tgt_hll_type ( mode_byte ) {
+TGT_HLL4 => HllType :: Hll4 , TGT_HLL6 => HllType :: Hll6 , TGT_HLL8 => HllType :: Hll8 , hll_type => {
+return Err ( vx_err_deserial ( ) ) ;
+}
+}
+;
+let empty = ( flags & EMPTY_FLAG_MASK ) != 0 ;
+let compact = ( flags & COMPACT_FLAG_MASK ) != 0 ;
+let ooo = ( flags & OUT_OF_ORDER_FLAG_MASK ) != 0 ;
+let mode = match extract_cur_mode ( mode_byte ) {
+CUR_MODE_LIST => {
+if preamble_ints != LIST_PREINTS {
+return Err ( vx_err_deserial ( ) ) ;
+}
+let lg_arr = lg_arr as usize ;
+let coupon_count = state as usize ;
+let list = List :: deserialize ( cursor , lg_arr , coupon_count , empty , compact ) ? ;
+Mode :: List {
+list , hll_type }
+}
+CUR_MODE_SET => {
+if preamble_ints != HASH_SET_PREINTS {
+return Err ( vx_err_deserial ( ) ) ;
+}
+let lg_arr = lg_arr as usize ;
+let set = HashSet :: deserialize ( cursor , lg_arr , compact ) ? ;
+Mode :: Set {
+set , hll_type }
+}
+CUR_MODE_HLL => {
+if preamble_ints != HLL_PREINTS {
+return Err ( vx_err_deserial ( ) ) ;
+}
+match hll_type {
+HllType :: Hll4 => {
+let cur_min = state ;
+vx_map_array4 ( Array4 :: deserialize ( cursor , cur_min , lg_config_k , compact , ooo ) ) ? }
+HllType :: Hll6 => vx_map_array6 ( Array6 :: deserialize ( cursor , lg_config_k , compact , ooo ) ) ? , HllType :: Hll8 => vx_map_array8 ( Array8 :: deserialize ( cursor , lg_config_k , compact , ooo ) ) ? , }
+}
+mode => return Err ( vx_err_deserial ( ) ) , }
+;
+Ok ( HllSketch {
+lg_config_k , mode }
+) }
 
-        // Read and validate preamble
-        let preamble_ints = cursor
-            .read_u8()
-            .vx_io("preamble_ints")?;
-        let serial_version = cursor
-            .read_u8()
-            .vx_io("serial_version")?;
-        let family_id = cursor.read_u8().vx_io("family_id")?;
-        let lg_config_k = cursor.read_u8().vx_io("lg_config_k")?;
-        // lg_arr used in List/Set modes
-        let lg_arr = cursor.read_u8().vx_io("lg_arr")?;
-        let flags = cursor.read_u8().vx_io("flags")?;
-        // The contextual state byte:
-        // * coupon count in LIST mode
-        // * cur_min in HLL mode
-        // * unused in SET mode
-        let state = cursor.read_u8().vx_io("state")?;
-        let mode_byte = cursor.read_u8().vx_io("mode")?;
-        proof {
-            assert(b.skip(1).skip(1).skip(1).skip(1).skip(1).skip(1).skip(1).skip(1) =~= b.skip(8));
-            assert(b.skip(1)[0] == b[1] && b.skip(1).skip(1)[0] == b[2] && b.skip(1).skip(1).skip(1)[0] == b[3]);
-            assert(b.skip(1).skip(1).skip(1).skip(1)[0] == b[4] && b.skip(1).skip(1).skip(1).skip(1).skip(1)[0] == b[5]);
-            assert(b.skip(1).skip(1).skip(1).skip(1).skip(1).skip(1)[0] == b[6] && b.skip(1).skip(1).skip(1).skip(1).skip(1).skip(1).skip(1)[0] == b[7]);
-            assert((mode_byte >> 2) & 3 <= 3 && mode_byte & 3 <= 3) by (bit_vector);
-        }
-
-        // Verify family ID
-        Family::HLL.validate_id(family_id)?;
-
-        // Verify serialization version
-        ensure_serial_version_is(SERIAL_VERSION, serial_version)?;
-
-        // Verify lg_k range (4-21 are valid)
-        if !vx_in_4_21(lg_config_k) {
-            return Err(vx_err_deserial());
-        }
-
-        let hll_type = match extract_tgt_hll_type(mode_byte) {
-            TGT_HLL4 => HllType::Hll4,
-            TGT_HLL6 => HllType::Hll6,
-            TGT_HLL8 => HllType::Hll8,
-            hll_type => {
-                return Err(vx_err_deserial());
-            }
-        };
-
-        let empty = (flags & EMPTY_FLAG_MASK) != 0;
-        let compact = (flags & COMPACT_FLAG_MASK) != 0;
-        let ooo = (flags & OUT_OF_ORDER_FLAG_MASK) != 0;
-
-        // Deserialize based on mode
-        let mode =
-            match extract_cur_mode(mode_byte) {
-                CUR_MODE_LIST => {
-                    if preamble_ints != LIST_PREINTS {
-                        return Err(vx_err_deserial());
-                    }
-
-                    let lg_arr = lg_arr as usize;
-                    let coupon_count = state as usize;
-                    let list = List::deserialize(cursor, lg_arr, coupon_count, empty, compact)?;
-                    Mode::List { list, hll_type }
-                }
-                CUR_MODE_SET => {
-                    if preamble_ints != HASH_SET_PREINTS {
-                        return Err(vx_err_deserial());
-                    }
-
-                    let lg_arr = lg_arr as usize;
-                    let set = HashSet::deserialize(cursor, lg_arr, compact)?;
-                    Mode::Set { set, hll_type }
-                }
-                CUR_MODE_HLL => {
-                    if preamble_ints != HLL_PREINTS {
-                        return Err(vx_err_deserial());
-                    }
-
-                    match hll_type {
-                        HllType::Hll4 => {
-                            let cur_min = state;
-                            vx_map_array4(Array4::deserialize(cursor, cur_min, lg_config_k, compact, ooo))?
-                        }
-                        HllType::Hll6 => vx_map_array6(Array6::deserialize(cursor, lg_config_k, compact, ooo))?,
-                        HllType::Hll8 => vx_map_array8(Array8::deserialize(cursor, lg_config_k, compact, ooo))?,
-                    }
-                }
-                mode => return Err(vx_err_deserial()),
-            };
-
-        Ok(HllSketch { lg_config_k, mode })
-    }
 }
 
 }
